@@ -75,7 +75,7 @@ impl Cfg {
     }
 }
 
-#[derive(Clone, Debug)]
+#[derive(Clone, Debug, PartialEq)]
 pub enum Ev {
     Send { to: Id, data: Vec<u8> },
     Sched { timer: Timer<Id>, after: Duration },
